@@ -806,6 +806,14 @@ class Dataset(AutoSerialize):
         if not isinstance(index, tuple):
             index = (index,)
 
+        # NumPy moves the axis produced by a list/array index to the front when the advanced
+        # indices (integers together with that list) are not next to each other in the index
+        # expression, e.g. ds[0, :, [1, 2]] or ds[0, ..., [1, 2]] (also when the Ellipsis is empty)
+        advanced = [
+            i for i, idx in enumerate(index) if isinstance(idx, (int, np.integer, list, np.ndarray))
+        ]
+        array_axis_first = bool(advanced) and advanced[-1] - advanced[0] + 1 != len(advanced)
+
         # Expand Ellipsis
         if Ellipsis in index:
             ellipsis_pos = index.index(Ellipsis)
@@ -819,14 +827,9 @@ class Dataset(AutoSerialize):
         # Compute which dimensions are kept
         kept_axes = [i for i, idx in enumerate(index) if not isinstance(idx, (int, np.integer))]
 
-        # NumPy moves the axis produced by a list/array index to the front when the advanced
-        # indices (integers together with that list) are separated by a slice, e.g. ds[0, :, [1, 2]]:
-        # list the kept axes in the order of the returned array
-        advanced = [
-            i for i, idx in enumerate(index) if isinstance(idx, (int, np.integer, list, np.ndarray))
-        ]
+        # list the kept axes in the order of the returned array (see array_axis_first above)
         array_axes = [i for i in kept_axes if isinstance(index[i], (list, np.ndarray))]
-        if array_axes and advanced[-1] - advanced[0] + 1 != len(advanced):
+        if array_axes and array_axis_first:
             kept_axes = array_axes + [i for i in kept_axes if i not in array_axes]
 
         # Slice/reduce metadata accordingly
